@@ -35,6 +35,7 @@ type weights struct {
 	execPct    int // wrap the first message into authz.exec
 	multiPct   int // multi-message transactions
 	bulkPct    int // transactions of several storage purchases for different registrations
+	payerPct   int // transactions with an explicit fee payer
 	scramble   int // signer focus: random signer / named address
 	granterPct int // use an existing fee grant
 	lockedPct  int // prefer holders of locked eFUND as payers
@@ -64,12 +65,12 @@ var focusWeights = map[string]map[string]int{
 	"stream": {"str.create": 6, "str.claim": 9, "str.topup": 4, "str.rate": 4, "str.cancel": 2, "bank.send": 2},
 	"fees": {"wrk.reg": 3, "wrk.rec": 8, "wrk.buy": 5, "bcn.reg": 3, "bcn.rec": 8, "bcn.buy": 5, "ent.raise": 4, "ent.decide": 6,
 		"feegrant.grant": 3, "bank.send": 1},
-	"authz":  {"authz.grant": 10, "authz.revoke": 2, "authz.exec": 20},
-	"gov":    {},
+	"authz": {"authz.grant": 10, "authz.revoke": 2, "authz.exec": 20},
+	"gov":   {},
 	"signer": {"ent.raise": 5, "ent.decide": 8, "ent.wl": 2, "wrk.reg": 3, "wrk.rec": 6, "wrk.buy": 3, "bcn.reg": 3, "bcn.rec": 6, "bcn.buy": 3,
 		"str.create": 3, "str.claim": 3, "str.topup": 2, "str.rate": 2, "str.cancel": 1, "bank.send": 2, "authz.grant": 2, "authz.revoke": 1,
 		"authz.exec": 3, "feegrant.grant": 1},
-	"query":  {},
+	"query": {},
 	"genesis": {"ent.wl": 3, "ent.raise": 7, "ent.decide": 7, "wrk.reg": 3, "wrk.rec": 10, "wrk.buy": 4, "bcn.reg": 3, "bcn.rec": 10, "bcn.buy": 4,
 		"str.create": 5, "str.claim": 2, "str.topup": 2, "str.rate": 1, "str.cancel": 1, "bank.send": 2, "authz.grant": 1, "feegrant.grant": 1},
 	"crash": {},
@@ -93,7 +94,7 @@ func newWeights(focus string) (*weights, error) {
 	if !ok {
 		return nil, fmt.Errorf("unknown focus %q (want %s)", focus, strings.Join(Focuses(), "|"))
 	}
-	w := &weights{exactPct: 70, execPct: 10, multiPct: 15, granterPct: 10, lockedPct: 10, govPct: 5, maxCheck: 1}
+	w := &weights{exactPct: 70, execPct: 10, multiPct: 15, granterPct: 10, lockedPct: 10, govPct: 5, maxCheck: 1, payerPct: 4}
 	for _, k := range txKinds {
 		x := fw[k]
 		if len(fw) == 0 || focus == "authz" && x == 0 {
@@ -105,7 +106,7 @@ func newWeights(focus string) (*weights, error) {
 	}
 	switch focus {
 	case "fees":
-		w.exactPct, w.granterPct, w.lockedPct, w.maxCheck, w.execPct = 40, 35, 45, 4, 5
+		w.exactPct, w.granterPct, w.lockedPct, w.maxCheck, w.execPct, w.payerPct = 40, 35, 45, 4, 5, 15
 	case "authz":
 		w.execPct = 25
 	case "gov":
@@ -400,6 +401,8 @@ func one(o Options, w *weights, k int) (st *Stats, err error) {
 		st.Crashes.add(map[string]string{"ok": "ok", "bad": "err"}[ip.LastX])
 		return nil
 	}
+	var pending []script.Tx // CHECKs admitted in the previous gap
+	blockSigners := map[string]bool{} // accounts that signed a transaction of the block delivered last
 	noCheck := false // no CHECK between a CRASH and the next COMMIT (the restarted check state has an empty header)
 
 blocks:
@@ -407,7 +410,36 @@ blocks:
 		if err := gap(b); err != nil {
 			return st, err
 		}
+		gapSigners := map[string]bool{} // accounts with something admitted to the check state in this gap
 		if !noCheck {
+			// the mempool is re-validated after every commit: transactions admitted in the previous gap and still
+			// pending are checked again (type Recheck) against the state committed since — a fee parameter may have changed
+			if w.crashPct == 0 && !w.genesis {
+				// only transactions whose signatures still carry the right sequence (the model has no sequence numbers):
+				// nothing of their signers was admitted to the check state before them in their gap (see below), and the
+				// signers signed nothing in the block delivered since
+				for _, pt := range pending {
+					fresh := true
+					for _, sg := range pt.Signers {
+						fresh = fresh && !blockSigners[sg]
+					}
+					if !fresh || !g.chance(70) {
+						continue
+					}
+					line := strings.Replace(pt.Line("CHECK"), fmt.Sprintf("CHECK %d ", pt.N), fmt.Sprintf("RECHECK %d %d ", g.next(), pt.N), 1)
+					if _, err := emit(line); err != nil {
+						return st, err
+					}
+					st.Checks++
+					st.count("recheck", ip.Last.Class)
+					if ip.Last.Class == "ok" {
+						for _, sg := range pt.Signers {
+							gapSigners[sg] = true
+						}
+					}
+				}
+			}
+			pending = pending[:0]
 			for c := g.rng.Intn(w.maxCheck + 1); c > 0; c-- {
 				t := g.tx(newView(ip.R, ip.R.CheckCtx()), true)
 				if _, err := emit(t.Line("CHECK")); err != nil {
@@ -415,6 +447,18 @@ blocks:
 				}
 				st.Checks++
 				st.countTx("check:", t, ip.Last.Class)
+				if ip.Last.Class == "ok" {
+					first := true
+					for _, sg := range t.Signers {
+						first = first && !gapSigners[sg]
+					}
+					if first {
+						pending = append(pending, t)
+					}
+					for _, sg := range t.Signers {
+						gapSigners[sg] = true
+					}
+				}
 			}
 		}
 		if w.crashPct > 0 && g.chance(w.crashPct) { // between blocks
@@ -426,6 +470,9 @@ blocks:
 		now = now.Add(steps[g.rng.Intn(len(steps))])
 		if w.longSteps && g.chance(3) {
 			now = now.AddDate(300, 0, 0) // beyond the range of time.Duration and of UnixNano
+		}
+		for k := range blockSigners {
+			delete(blockSigners, k)
 		}
 		begin := fmt.Sprintf("BEGIN %d %d", now.Unix(), now.Nanosecond())
 		if _, err := emit(begin); err != nil {
@@ -446,7 +493,7 @@ blocks:
 
 		// body of the open block so far, kept so that a crash focus can emit the block again
 		type bodyLine struct {
-			tx  *script.Tx // TX line
+			tx  *script.Tx   // TX line
 			gov []script.Msg // GOVEXEC line (tx == nil): the messages of one proposal
 		}
 		var body []bodyLine
@@ -468,6 +515,9 @@ blocks:
 			}
 			if _, err := emit(l.tx.Line("TX")); err != nil {
 				return err
+			}
+			for _, sg := range l.tx.Signers {
+				blockSigners[sg] = true
 			}
 			st.Txs++
 			st.countTx("", *l.tx, ip.Last.Class)
